@@ -67,13 +67,15 @@ class _ViewRegs(list):
             self.writes.append((idx, val))
 
 
-def run_delayed(trace, dc=None, ic=None, cap=REF_CAP, prog=None):
+def run_delayed(trace, dc=None, ic=None, cap=None, prog=None):
     """Interlock-free pipeline reference. Returns dict(regs, sim, total_ticks, n, exc,
     capped, stale, sched) where `stale` says whether any instruction observed a register
     value different from the sequential one."""
     import fixedint
 
     prog_ir = trace["prog"] if prog is None else prog
+    if cap is None:
+        cap = trace["cfg"].get("cap", REF_CAP)
     sim = make_sim(trace, "single_stage_pipeline", True, dc, ic, prog)
     decoy = Decoy(trace, False, dc, ic, prog)
     st = sim.state
